@@ -751,13 +751,19 @@ class LogOperationRecorder(BaseOperationRecorder):
             else:
                 header_str = ''
 
+            def to_unicode(data):
+                # The response is logged as received, even if it is not
+                # valid UTF-8 or has been cut within a multi-byte character
+                if isinstance(data, bytes):
+                    return data.decode('utf-8', errors='replace')
+                return data
+
             if self.http_detail_level == 'summary':
                 upayload = ""
             elif self.http_maxlen and (len(payload) > self.http_maxlen):
-                upayload = (_ensure_unicode(payload[:self.http_maxlen]) +
-                            '...')
+                upayload = to_unicode(payload[:self.http_maxlen]) + '...'
             else:
-                upayload = _ensure_unicode(payload)
+                upayload = to_unicode(payload)
             upayload = repr(upayload)
             if upayload.startswith("u'"):
                 upayload = upayload[1:]
